@@ -140,7 +140,7 @@ def run(ctx):
                      "one cached context" % (fed, item_params), loc=gh.file)
     # failure of any item fails the digest
     # the file hasher is found by role: the function of the store that stats the file and feeds the digest
-    hfs = [f for f in P.fns_in(gh.file.split("/")[-1]) if any(f.nodes[c].get("callee") in ("stat", "lstat") for c in f.calls()) and any(True for _ in f.calls("EVP_DigestUpdate"))]
+    hfs = [f for f in P.fns_in(gh.file.split("/")[-1]) if any(f.nodes[c].get("callee") in ("stat", "lstat", "fstatat", "statx", "fstat") for c in f.calls()) and any(True for _ in f.calls("EVP_DigestUpdate"))]
     if len(hfs) != 1:
         raise Broken("C18.R3: file hasher not found (%s)" % [f.name for f in hfs])
     hf = hfs[0]
@@ -157,7 +157,11 @@ def run(ctx):
             if m["k"] == "ref" and m.get("dk") == "param" and m["name"] == hf.params[0]["name"]:
                 path_fed = True
     follows = any(hf.nodes[c].get("callee") == hf.name for c in hf.calls()) and any("S_IFLNK" in hf.show(cond) or "40960" in hf.show(cond) for b, cond in C.cond_blocks(hf))
-    uses_lstat = any(True for _ in hf.calls("lstat")) and any(True for _ in hf.calls("stat"))
+    # one stat that does not follow the link (to see a link being flipped) and one that does (to see its target change)
+    nofollow = any(True for _ in hf.calls("lstat")) or any((C.const_of(hf, hf.nodes[c]["args"][3]) or 0) & 0x100 for c in hf.calls("fstatat") if len(hf.nodes[c]["args"]) > 3)
+    following = any(True for _ in hf.calls("stat")) or any(C.const_of(hf, hf.nodes[c]["args"][3]) is not None and not (C.const_of(hf, hf.nodes[c]["args"][3]) & 0x100)
+                                                            for c in hf.calls("fstatat") if len(hf.nodes[c]["args"]) > 3)
+    uses_lstat = nofollow and following
     if got == need and path_fed and follows and uses_lstat:
         r3.ok("a file contributes its path, device, inode, size and modification time (s, ns); a symlink also its target's", "argument coverage")
     else:
